@@ -1,6 +1,7 @@
 package main
 
 import (
+	"go/constant"
 	"fmt"
 	"go/token"
 	"go/types"
@@ -120,6 +121,7 @@ func loadProg(root string, bc BuildConfig) (*Prog, error) {
 			return
 		}
 		seen[f] = true
+		pruneConstBranches(f)
 		P.Funcs = append(P.Funcs, f)
 		for _, a := range f.AnonFuncs {
 			P.encl[a] = f
@@ -279,4 +281,125 @@ func (p *Prog) Outer(fn *ssa.Function) *ssa.Function {
 		fn = fn.Parent()
 	}
 	return fn
+}
+
+// pruneConstBranches removes what go/ssa leaves in place for a branch on a
+// constant (`if false { … }`, `if debug && …` with a constant debug): the edge
+// that is never taken, the blocks that become unreachable, and their
+// instructions' entries in the referrer lists of live values. Without it a
+// check disabled by `if false` would still count as "the error is tested" or
+// "the call is made". The If itself stays, with both successors set to the
+// taken block (so every `Succs[0]/Succs[1]` access stays valid and the edge
+// discriminates nothing); phi operands follow the predecessor lists. The
+// dominator tree is left as built — it under-approximates dominance in the
+// pruned graph, which is the safe direction.
+func pruneConstBranches(fn *ssa.Function) {
+	if len(fn.Blocks) == 0 {
+		return
+	}
+	removePred := func(to, from *ssa.BasicBlock) {
+		for i := 0; i < len(to.Preds); i++ {
+			if to.Preds[i] != from {
+				continue
+			}
+			to.Preds = append(to.Preds[:i:i], to.Preds[i+1:]...)
+			for _, in := range to.Instrs {
+				ph, ok := in.(*ssa.Phi)
+				if !ok {
+					break
+				}
+				ph.Edges = append(ph.Edges[:i:i], ph.Edges[i+1:]...)
+			}
+			return
+		}
+	}
+	changed := false
+	for _, b := range fn.Blocks {
+		if len(b.Instrs) == 0 || len(b.Succs) != 2 || b.Succs[0] == b.Succs[1] {
+			continue
+		}
+		ifi, ok := b.Instrs[len(b.Instrs)-1].(*ssa.If)
+		if !ok {
+			continue
+		}
+		c, ok := ifi.Cond.(*ssa.Const)
+		if !ok || c.Value == nil || c.Value.Kind() != constant.Bool {
+			continue
+		}
+		taken, other := b.Succs[0], b.Succs[1]
+		if !constant.BoolVal(c.Value) {
+			taken, other = other, taken
+		}
+		removePred(other, b)
+		// b now reaches taken over both edges: one more predecessor entry, phi operands duplicated
+		for i, pr := range taken.Preds {
+			if pr != b {
+				continue
+			}
+			taken.Preds = append(taken.Preds, b)
+			for _, in := range taken.Instrs {
+				ph, ok := in.(*ssa.Phi)
+				if !ok {
+					break
+				}
+				ph.Edges = append(ph.Edges, ph.Edges[i])
+			}
+			break
+		}
+		b.Succs[0], b.Succs[1] = taken, taken
+		changed = true
+	}
+	if !changed {
+		return
+	}
+	live := map[*ssa.BasicBlock]bool{}
+	var visit func(b *ssa.BasicBlock)
+	visit = func(b *ssa.BasicBlock) {
+		if live[b] {
+			return
+		}
+		live[b] = true
+		for _, s := range b.Succs {
+			visit(s)
+		}
+	}
+	visit(fn.Blocks[0])
+	if fn.Recover != nil {
+		visit(fn.Recover)
+	}
+	var kept []*ssa.BasicBlock
+	for _, b := range fn.Blocks {
+		if live[b] {
+			kept = append(kept, b)
+			continue
+		}
+		for _, s := range b.Succs {
+			if live[s] {
+				removePred(s, b)
+			}
+		}
+		for _, in := range b.Instrs {
+			var ops [16]*ssa.Value
+			for _, op := range in.Operands(ops[:0]) {
+				if op == nil || *op == nil {
+					continue
+				}
+				refs := (*op).Referrers()
+				if refs == nil {
+					continue
+				}
+				out := (*refs)[:0]
+				for _, r := range *refs {
+					if r != in {
+						out = append(out, r)
+					}
+				}
+				*refs = out
+			}
+		}
+	}
+	for i, b := range kept {
+		b.Index = i
+	}
+	fn.Blocks = kept
 }
